@@ -43,6 +43,11 @@ def handle (args : List String) : Option String :=
     if sf == "-" then pure "ok" else
     let m ← hexDecode sf
     pure (if role == "c" && ScramLoop.serverFirst m == .loops then "STALL" else "ok")
+  | ["servex", mode, k, stanzas] => do
+    -- a served session under a local fault (write failure from call k / Session.Close before
+    -- stanza k): Serve still returns once the input has ended
+    let _ ← k.toNat?
+    if (mode == "w" || mode == "c") && !stanzas.isEmpty then pure "ok" else none
   | ["scen", _name, steps] =>
     -- a stateful scenario (local calls and peer stanzas interleaved): same prediction
     if steps.isEmpty then none else some "ok"
